@@ -13,6 +13,7 @@ import (
 	"math/big"
 	"net"
 	"sync"
+	"sync/atomic"
 	"time"
 
 	smtp "github.com/emersion/go-smtp"
@@ -78,23 +79,44 @@ func (r *Rig) DialTLS() (*Peer, error) {
 
 // Finish ends the case: Shutdown (joins connection handlers), bounded by the watchdog.
 // It returns false when the watchdog expired (inconclusive).
+// finishTimeouts counts Finish calls that ran into the watchdog in this process. A tree on which
+// handlers hang would otherwise cost two full watchdog periods per case; after a few such
+// expiries the remaining cases wait only briefly (their verdicts come from the monitors, the
+// wait itself never decides anything).
+var finishTimeouts atomic.Int32
+
+func finishWait() time.Duration {
+	if finishTimeouts.Load() > 6 {
+		return Watchdog / 40
+	}
+	return Watchdog
+}
+
+// Abort ends the case without waiting for handlers (used after a deadlock has been established).
+func (r *Rig) Abort() {
+	r.L.WaitAccepting()
+	r.Srv.Close()
+}
+
 func (r *Rig) Finish() bool {
 	// Serve must have registered its listener (it does so before its first Accept), otherwise
 	// Shutdown would not close it and Serve would never return.
 	r.L.WaitAccepting()
 	r.L.WaitDrained()
-	ctx, cancel := context.WithTimeout(context.Background(), Watchdog)
+	ctx, cancel := context.WithTimeout(context.Background(), finishWait())
 	defer cancel()
 	err := r.Srv.Shutdown(ctx)
 	ok := true
 	if errors.Is(err, context.DeadlineExceeded) {
 		ok = false
+		finishTimeouts.Add(1)
 		r.Srv.Close()
 	}
 	select {
 	case r.ServeErr = <-r.serveDone:
-	case <-time.After(Watchdog):
+	case <-time.After(finishWait()):
 		ok = false
+		finishTimeouts.Add(1)
 	}
 	return ok
 }
